@@ -90,6 +90,10 @@ def valid_input(me, T, task, shape, rng):
         if what in ("ref_reward", "both"):
             kw["ref_reward"] = np.array([rng.choice([0.0, 0.5, 1.0]) for _ in rf])
         return (rt, rf, et, ef), kw
+    if task == "alignment":
+        ref, est = gen.gen_alignment(rng, "random")
+        if shape == "duration-equals-last-timestamp":                  # the last timestamp may coincide with the end of the audio
+            return (ref, est), {"duration": float(max(ref.max(), est.max()))}
     raise Machinery("no generator for %s/%s" % (task, shape))
 
 
@@ -329,6 +333,8 @@ def faulty_call(me, T, task, fault, fn_name, rng):
             kw = {"frame_size": rng.choice([0.0, -0.5])}
         elif fault == "frame-size-exceeds-window":
             kw = {"frame_size": 1.0, "window": 0.5}
+        elif fault == "window-zero":
+            kw = {"frame_size": 0.25, "window": rng.choice([0, 0.0])}
         elif fault == "level-ends-differ":
             ri = [x.copy() for x in ri] + [np.array([[0.0, ri[0].max() + 1.0]])]; rl = rl + [["z"]]
         elif fault == "level-not-start-at-0":
